@@ -27,15 +27,16 @@ def splitEq : Bytes → Bytes × Option Bytes
   | c :: cs => if c == 61 then ([], some cs) else
       let (k, r) := splitEq cs; (c :: k, r)
 
-/-- decode one `key[=value]` segment (`none` = Go panics in `hexbyte2int`). -/
-def decodeSeg (seg : Bytes) : Option KV :=
+/-- decode one `key[=value]` segment with hex table `t` (`none` = Go panics in `hexbyte2int`:
+    only with goutil's 255-entry table). -/
+def decodeSeg (t : HexTab) (seg : Bytes) : Option KV :=
   match splitEq seg with
-  | (k, none) => (unquote true k).map (fun k' => (k', []))
-  | (k, some v) => (unquote true k).bind (fun k' => (unquote true v).map (fun v' => (k', v')))
+  | (k, none) => (unquote t true k).map (fun k' => (k', []))
+  | (k, some v) => (unquote t true k).bind (fun k' => (unquote t true v).map (fun v' => (k', v')))
 
 /-- one `argsScanner.next` on a non-empty buffer: decoded pair and the remaining buffer. -/
-def scanOne (b : Bytes) : Option KV × Bytes :=
-  ((decodeSeg (splitAmp b).1), (splitAmp b).2.getD [])
+def scanOne (t : HexTab) (b : Bytes) : Option KV × Bytes :=
+  ((decodeSeg t (splitAmp b).1), (splitAmp b).2.getD [])
 
 theorem splitAmp_rest_le (l : Bytes) : ((splitAmp l).2.getD []).length ≤ l.length := by
   induction l with
@@ -54,17 +55,20 @@ theorem splitAmp_rest_lt (c : UInt8) (cs : Bytes) :
   · have := splitAmp_rest_le cs
     simp only [List.length_cons]; omega
 
-/-- all pairs produced by scanning, in order (including empty ones). `none` = panic. -/
-def scanAll : Bytes → Option (List KV)
+/-- all pairs produced by scanning, in order (including empty ones). `none` = panic.
+    `t` = the hex table of the scanner's package (`utils`: `.full`; goutil `status`: `.short`). -/
+def scanAll (t : HexTab) : Bytes → Option (List KV)
   | [] => some []
   | c :: cs =>
-    (scanOne (c :: cs)).1.bind fun kv => (scanAll (scanOne (c :: cs)).2).map (kv :: ·)
+    (scanOne t (c :: cs)).1.bind fun kv => (scanAll t (scanOne t (c :: cs)).2).map (kv :: ·)
 termination_by b => b.length
 decreasing_by exact splitAmp_rest_lt c cs
 
-/-- `Args.ParseBytes`: pairs with empty key *and* empty value are not kept. -/
+/-- `Args.ParseBytes` (`utils/args.go`, 256-entry hex table): pairs with empty key *and* empty value
+    are not kept. The result is `some` for every input (`Lemmas/Args.parse_total`); the `Option` is
+    kept because the scanner is shared with goutil's status decoder, which can panic. -/
 def parse (b : Bytes) : Option (List KV) :=
-  (scanAll b).map (fun l => l.filter (fun kv => !(kv.1.isEmpty && kv.2.isEmpty)))
+  (scanAll .full b).map (fun l => l.filter (fun kv => !(kv.1.isEmpty && kv.2.isEmpty)))
 
 end Args
 end Teleport
